@@ -16,7 +16,9 @@ LINKS = ['Position_Indices', 'Position_Values', 'Spectroscopic_Indices', 'Spectr
 LINK_CORR = ['missing', 'notref', 'dangling', 'group', 'rank1', 'rank0', 'rank3', 'rows', 'cols', 'nolabels', 'nounits',
              'labels_diff', 'units_diff', 'labels_len', 'units_len', 'both_len', 'both_short', 'labels_last_diff']
 MAIN_CORR = ['no_quantity', 'no_units', 'quantity_nonstr', 'units_nonstr', 'main_rank1', 'main_rank3', 'pair_shape_pos',
-             'pair_shape_spec', 'both_labels_len_pos', 'both_labels_len_spec']
+             'pair_shape_spec', 'both_labels_len_pos', 'both_labels_len_spec',
+             # both ancillaries of one side resized TOGETHER: consistent with each other, not with the Main dataset
+             'side_more_pos', 'side_more_spec', 'side_less_pos', 'side_less_spec']
 ALL_CORR = MAIN_CORR + ['%s:%s' % (l, c) for l in LINKS for c in LINK_CORR]
 RULE = RULE % len(ALL_CORR)
 
@@ -82,6 +84,22 @@ def _corrupt(grp, h5_main, corr):
         shp = (v.shape[0], v.shape[1] + 1) if base == 'Position' else (v.shape[0] + 1, v.shape[1])
         d = _replace(grp, base + '_Values', shp, np.float32, v)
         grp['main'].attrs[base + '_Values'] = d.ref
+    elif corr.startswith('side_more') or corr.startswith('side_less'):
+        base = 'Position' if corr.endswith('pos') else 'Spectroscopic'
+        delta = 1 if corr.startswith('side_more') else -1
+        for suffix in ('_Indices', '_Values'):
+            if base + suffix not in grp or not isinstance(grp[base + suffix], h5py.Dataset):
+                return
+            if len(grp[base + suffix].shape) != 2:
+                return
+        r, cc = grp[base + '_Indices'].shape
+        shp = (r + delta, cc) if base == 'Position' else (r, cc + delta)
+        if min(shp) < 1:
+            shp = (r + 2, cc) if base == 'Position' else (r, cc + 2)
+        for suffix in ('_Indices', '_Values'):
+            d = grp[base + suffix]
+            nd = _replace(grp, base + suffix, shp, d.dtype, d)
+            grp['main'].attrs[base + suffix] = nd.ref
     elif corr.startswith('both_labels_len'):
         base = 'Position' if corr.endswith('pos') else 'Spectroscopic'
         for suffix in ('_Indices', '_Values'):
